@@ -27,7 +27,7 @@ class Virtual(BaseHandler):
             self.statresult = None
             try:
                 self.statresult = self.vfs.stat(self.selectorreal)
-            except OSError:
+            except (OSError, ValueError):
                 pass
         else:
             # Best guess.
